@@ -50,6 +50,8 @@ impl Story {
         variable_name: &str,
         value_type: &ValueType,
     ) -> Result<(), StoryError> {
+        self.if_async_we_cant("set a variable")?;
+
         let notify_observers = self
             .get_state_mut()
             .variables_state
@@ -118,6 +120,8 @@ impl Story {
 
     /// Loads a previously saved state in JSON format.
     pub fn load_state(&mut self, json_state: &str) -> Result<(), StoryError> {
+        self.if_async_we_cant("load a saved state")?;
+
         self.get_state_mut().load_json(json_state)
     }
 
